@@ -9,6 +9,9 @@
           | `empty`                                  (a write of zero bytes)
     timeout <variant> <ver> <ptype> <id>             → `InvokeTimeout` alone: a packet or `nil`
     closemsg <variant>                               → `GetCloseMsg`
+    tupattrs <ret> <outs>                            → the attributes the emitted dispatcher puts into a TUP answer, in
+                                                       PutBuffer order: <ret> = `-` (void) | `=<hex of the encoded return value>`,
+                                                       <outs> = `-` | `<name>:<hex>,…`; answer `<name>:<hex>,…` | `-`
     variant                                          → `<ti><se><ts>` of the current tree (from Generated/Consts)
 
   <variant> = `tree` | `asfound` | `repaired` | three flags `<ti><se><ts>` (timeoutIdentity, skipEmpty,
@@ -129,6 +132,27 @@ def handle : List String → String
     match parseVariant v with
     | some v => showWire (some (getCloseMsg v))
     | none => "bad-op"
+  | ["tupattrs", ret, outs] =>
+    -- ret: `-` (void) | `=<hex>`; outs: `-` | `name:hex,name:hex` (names hex as well)
+    let retV : Option (Option (List Nat)) :=
+      if ret = "-" then some none
+      else match ret.toList with
+        | '=' :: h => (fromHex (String.ofList h)).map (fun bs => some (bs.map (·.val)))
+        | _ => none
+    let outsV : Option (List (String × List Nat)) :=
+      if outs = "-" then some []
+      else (splitOn ',' outs).foldr (fun kv acc =>
+        match acc, splitOn ':' kv with
+        | some m, [k, v] => match parseStr k, fromHex v with
+          | some k', some v' => some ((k', v'.map (·.val)) :: m)
+          | _, _ => none
+        | _, _ => none) (some [])
+    match retV, outsV with
+    | some r, some os =>
+      let attrs := genTupRspAttrs r os
+      if attrs.isEmpty then "-"
+      else String.intercalate "," (attrs.map (fun e => showStr e.1 ++ ":" ++ hexOut (e.2.map byte)))
+    | _, _ => "bad-op"
   | ["variant"] => showVariant treeVariant
   | _ => "bad-op"
 
